@@ -91,6 +91,15 @@ CLAIMS.update({
         note=CONC_NOTE + "Known findings: reads on an object another thread is using (lost update via suspend counter or via merge, impossible values, IndexError/KeyError in the unlocked merge) and the multi-load Sequence mix-ins count/index/__contains__ against a concurrent writer on another object."),
 })
 
+CLAIMS["C16"] = dict(
+    text="Theorems C16_copy_in_fresh (every node _from_base builds - from plain data or from data containing synced nodes - has an identity in the allocator's fresh range, all distinct; mutual induction, any depth), C16_assign_synced_is_copy, C16_copy_out_plain_{dict,list} ((), values(), items() are identity-free plain data by type), C16_removed_detached (a popped/deleted value shares no identity with what remains). Real code: identity audit with id() over all entry points x targets x 9 families (buffered ones also inside buffer_backend()), followed by mutation of every container of the argument / result.",
+    design_ref="§5 C16", technique="Lean 4 freshness theorems over identity-carrying trees + id()-level aliasing audit and mutate-after tests on the real classes",
+    note=COMMON_NOTE + "Identity is a modelled notion (node ids vs id()); keys() and __getitem__ intentionally return live objects and are outside the claim.")
+CLAIMS["C18"] = dict(
+    text="Obligations by decide over the regenerated class table: C18_family_closed (the classes _from_base picks for nested mappings/sequences - for plain data AND for synced collections of another family - are the family's own dict/list class) and C18_ctor_attrs_protected. Theorems over SC/Attr.lean: C18_attr_eq_item (get/set/del through attribute syntax equal item syntax with KeyError->AttributeError for every eligible key, any node), C18_missing_is_attribute_error, C18_protected_addresses_object, C18_protected_get_addresses_object, C18_item_never_disturbs; C18_counterexample_stale_protected_get is the known finding. Real code: family walk after every entry point incl. foreign synced data and kind-changing reloads; key pool x {get,set,del} x {attr,item} x depth 0-2 against an item-syntax twin; route correspondence with the model.",
+    design_ref="§5 C18", technique="decide over regenerated class table + Lean 4 routing theorems + route correspondence + twin oracle over a key pool",
+    note=COMMON_NOTE + "Known finding: getattr of a protected name that is not an attribute of the object falls through to the data (pinned by the repository's tests). Python's attribute lookup order is modelled.")
+
 NOT_YET = {}
 
 NOTES = ("All checks share one pipeline (./check): regenerate lean/SC/Generated/Tables.lean from /repo, lake build the model driver and the property's "
